@@ -140,6 +140,11 @@ Section Run.
     guard [q_unit a; u] (show_qres E (Q2Qc tol) (Q2Qc impl) (convert_to QcN tbl res keys a u)).
   Definition r_vmconv (tol impl : Q) (a b : quantity) : string :=
     guard [q_unit a; q_unit b] (show_qres E (Q2Qc tol) (Q2Qc impl) (vm_convert QcN tbl res keys a b)).
+  (* a chain of two explicit conversions  a -> b -> c *)
+  Definition r_vmconv2 (tol impl : Q) (a b c : quantity) : string :=
+    guard [q_unit a; q_unit b; q_unit c]
+          (show_qres E (Q2Qc tol) (Q2Qc impl)
+                     (bind (vm_convert QcN tbl res keys a b) (fun q => vm_convert QcN tbl res keys q c))).
   Definition r_add (tol impl : Q) (a b : quantity) : string :=
     guard [q_unit a; q_unit b] (show_qres E (Q2Qc tol) (Q2Qc impl) (qadd QcN tbl res keys a b)).
   Definition r_sub (tol impl : Q) (a b : quantity) : string :=
